@@ -48,18 +48,35 @@ def termsize(t, limit=THRESHOLD + 1):
     return n
 
 
-def let(name, v):
+def let(name, v, force=False):
     if isinstance(v, T.R):
         if v.ang is not None:
             return v
         size = termsize(v.n) + (termsize(v.d) if v.d is not None else 0)
-        if size <= THRESHOLD:
+        if size <= (1 if force else THRESHOLD):
             return v
         c = T.ctx()
+        speculative = c.speculative
+        # the same value computed twice (e.g. once by the code and once by the specification) shares its name:
+        # z3 must confirm that the two are identical rational functions
+        from . import cert as _cert
+        table = c.memo.setdefault('lets', [])
+        val = T.probe_value(c, v)
+        for (v0, s0, val0) in table:
+            if val is not None and val0 is not None and abs(val - val0) > 1e-9 * (1 + abs(val)):
+                continue
+            if val is None or val0 is None:
+                continue          # without a numeric probe nothing is shared (sharing is only an optimisation)
+            p = T.eq_poly(v, v0)
+            if p is not None and _cert.check_identity(p, 3000):
+                return s0
+        if speculative:
+            return v          # proof hints never introduce names, they only re-use existing ones
         nm = c.fresh(name)
         zv = v.z
         s = T.real(nm, numdef=lambda env: T.numeval(zv, env))
         c.assume(T.Eq(s, v))
+        table.append((v, s, val))
         return s
     if isinstance(v, SArr):
         changed = False
